@@ -401,3 +401,8 @@ type ReplayResult struct {
 	Cmd        string `json:"cmd"`
 	Output     string `json:"output"`
 }
+
+func regexpMatch(pat, s string) bool {
+	re, err := regexp.Compile(pat)
+	return err == nil && re.MatchString(s)
+}
